@@ -3,6 +3,7 @@
 use std::panic;
 
 mod cases;
+mod enumcheck;
 
 fn main() {
     let args: Vec<String> = std::env::args().skip(1).collect();
@@ -11,6 +12,17 @@ fn main() {
         std::process::exit(2);
     }
     panic::set_hook(Box::new(|_| {}));
+    if args[0] == "--enum" {
+        let tier = args.get(2).map(|s| s.as_str()).unwrap_or("quick");
+        match enumcheck::run(&args[1], tier) {
+            Some(v) => println!("{}", v),
+            None => {
+                eprintln!("unknown enum check");
+                std::process::exit(2)
+            }
+        }
+        return;
+    }
     if args[0] == "--batch" {
         let text = std::fs::read_to_string(&args[1]).expect("batch file");
         for line in text.lines() {
